@@ -20,8 +20,7 @@ for name in names:
             continue
         facts_dir, digest, fresh, _ = ex.extract(scratch)
         F = fx.load(facts_dir)
-        ctx = runner.Ctx(m["property"], F, gx.Graph(F), "thorough", 0, digest, fresh)
-        importlib.import_module("rules." + m["property"]).run(ctx)
+        ctx = runner.evaluate(m["property"], F, "thorough", 0, digest, fresh)
         viol = [runner.vkey(m["property"], o) for r_ in ctx.rules for o in r_.obligations if not o["ok"]]
         res[name] = {"status": "detected" if viol else "MISSED", "property": m["property"], "violations": viol[:4], "why": m.get("why", "")}
         print(name, res[name]["status"], viol[:2], flush=True)
